@@ -74,10 +74,13 @@ func init() {
 		Rule: "random builder-call sequences (0..3 body parts, 0..3 files, every transfer encoding, adversarial content) rendered by Msg.WriteTo and by the Lean write-plan model; non-trivial = more than one leaf; distinct by the full operation list",
 		Run: func(c *Ctx) {
 			n := c.N(1500, 60000)
+			nScaled := 0
 			for i := 0; i < n; i++ {
 				spc := genSpec(c.Rng, genOpts{maxParts: 3, maxFiles: 3, noFails: true})
 				scaled := ""
-				if c.Rng.Chance(1) {
+				if c.Rng.Chance(1) && nScaled < 60 {
+					// (a bounded number: the list-based model needs seconds for each of these)
+					nScaled++
 					scaled = "scale:" + scaleUp(c.Rng, spc) + ":"
 				}
 				if outs, ok := renderCase(c, spc, rendersFor(c.Rng), scaled); ok {
@@ -91,10 +94,13 @@ func init() {
 		Rule: "complete renderings of generated messages with producers that write in adversarial chunkings; every header section and every quoted-printable / base64 body is checked for CRLF-only line ends and the line length bounds; non-trivial = a header folds or a body wraps; distinct by operation list",
 		Run: func(c *Ctx) {
 			n := c.N(800, 40000)
+			nScaled := 0
 			for i := 0; i < n; i++ {
 				spc := genSpec(c.Rng, genOpts{maxParts: 3, maxFiles: 3, noFails: true})
 				scaled := ""
-				if c.Rng.Chance(1) {
+				if c.Rng.Chance(1) && nScaled < 60 {
+					// (a bounded number: the list-based model needs seconds for each of these)
+					nScaled++
 					scaled = "scale:" + scaleUp(c.Rng, spc) + ":"
 				}
 				if outs, ok := renderCase(c, spc, rendersFor(c.Rng), scaled); ok {
@@ -108,10 +114,13 @@ func init() {
 		Rule: "messages whose subject, generic headers, descriptions, file names and content-ids come from an adversarial text generator (CR, LF, NUL, control, non-ASCII, encoded-word look-alikes, any length), Q and B header encoders, all shapes; rendered by the implementation and the model; strict field scanner on every header section; non-trivial = some text needs encoding; distinct by operation list",
 		Run: func(c *Ctx) {
 			n := c.N(1500, 60000)
+			nScaled := 0
 			for i := 0; i < n; i++ {
 				spc := genSpec(c.Rng, genOpts{maxParts: 2, maxFiles: 2, noFails: true, textHeavy: true, smallContent: true})
 				scaled := ""
-				if c.Rng.Chance(1) {
+				if c.Rng.Chance(1) && nScaled < 60 {
+					// (a bounded number: the list-based model needs seconds for each of these)
+					nScaled++
 					scaled = "scale:" + scaleUp(c.Rng, spc) + ":"
 				}
 				if outs, ok := renderCase(c, spc, rendersFor(c.Rng), scaled); ok {
